@@ -267,7 +267,8 @@ class DistinctCountCheck(AbstractCheck):
         """
         local_variables = {DistinctCountCheck._COUNT_NAME: self._distinct_count()}
         try:
-            result = eval(self._expression, {}, local_variables)
+            # Without access to Python's builtins a rule cannot call things like exit() or __import__().
+            result = eval(self._expression, {"__builtins__": {}}, local_variables)
         except Exception as message:
             raise errors.InterfaceError(
                 "cannot evaluate count expression %r: %s" % (self._expression, message), self.location_of_rule
